@@ -22,8 +22,61 @@ def nontrivial(sh):
     return P.count_kind(sh, 'decl') >= 2
 
 
+# ---- at-rules fed by variables that an imported LESS file declares again, and at-rules produced by mixins (real compiler only): the
+# tree on disk against the pasted single text.  "variables and expressions inside them are still evaluated" -- with the value in force.
+def import_program(rng, k):
+    v = lambda: rng.choice(['1s', '2s', '300ms', '10px', '50%'])
+    u = lambda: '"http://%s.example"' % rng.choice(['a', 'b', 'cdn', 'x1'])
+    f = lambda: rng.choice(['"A"', '"Font B"', "'C'"])
+    main_first = '@cdn: %s;\n@dur: %s;\n@fam: %s;\n' % (u(), v(), f())
+    redecl = rng.sample(['@cdn: %s;\n' % u(), '@dur: %s;\n' % v(), '@fam: %s;\n' % f()], rng.randint(1, 3))
+    theme = ''.join(redecl) + rng.choice(['', '.t%d { top: 0; }\n' % k])
+    uses = ['@import "@{cdn}/x%d.css";\n' % k,
+            '.kf%d() { @keyframes spin%d { from { top: @dur; } to { top: 0; } } }\n.kf%d();\n' % (k, k, k),
+            '.ff%d() { @font-face { font-family: @fam; src: url("@{cdn}/f.woff"); } }\n.ff%d();\n' % (k, k),
+            '@keyframes direct%d { from { left: @dur; } 50%% { left: (@dur * 2); } }\n' % k,
+            '@font-face { font-family: @fam; src: url("@{cdn}/g.woff"); }\n',
+            '@media print { @keyframes m%d { to { top: @dur; } } }\n' % k,
+            '.vp%d() { @viewport { width: @dur; } }\n.vp%d();\n' % (k, k)]
+    rng.shuffle(uses)
+    uses = uses[:rng.randint(2, 5)]
+    name = rng.choice(['theme', 'theme.less', './theme'])
+    main = main_first + '@import "%s";\n' % name + ''.join(uses)
+    pasted = main_first + theme + ''.join(uses)
+    return main, theme, pasted
+
+
 def run(ctx):
-    return P.run_sheets(ctx, 19, FEATURES, 120, 3000, depth=3, all_opts=False, wild=True, nontrivial=nontrivial)
+    import os, random, shutil, tempfile
+    from .. import impl
+    out = P.run_sheets(ctx, 19, FEATURES, 120, 3000, depth=3, all_opts=False, wild=True, nontrivial=nontrivial)
+    rng = random.Random(ctx['seed'] * 1000003 + 1919)
+    n = (30 if ctx['tier'] == 'quick' else 600) * ctx.get('mult', 1)
+    base = tempfile.mkdtemp(prefix='lessverif-c19-')
+    try:
+        progs = []
+        for k in range(n):
+            main, theme, pasted = import_program(rng, k)
+            d = os.path.join(base, 'p%d' % k); os.makedirs(d)
+            open(os.path.join(d, 'main.less'), 'w').write(main)
+            open(os.path.join(d, 'theme.less'), 'w').write(theme)
+            progs.append((d, main, theme, pasted))
+        with impl.Pool() as pool:
+            a = pool.run([{'kind': 'compile_file', 'path': os.path.join(p[0], 'main.less'), 'opts': {}} for p in progs], timeout=30)
+            b = pool.run([{'kind': 'compile', 'text': p[3], 'opts': {}} for p in progs], timeout=30)
+        skipped = 0
+        for (d, main, theme, pasted), x, y in zip(progs, a, b):
+            out['evaluations'] += 1
+            if y.get('r') != 'ok':
+                skipped += 1
+                continue
+            if x.get('r') != 'ok' or x['css'] != y['css']:
+                out['spec_mismatch'].append({'input': {'text': main, 'files': {'main.less': main, 'theme.less': theme}, 'pasted': pasted, 'opts': {}}, 'impl': x,
+                                             'spec': {'the pasted single text compiles to': y}, 'classes': []})
+        out.setdefault('distribution', {})['at_rules_after_import_redeclaration'] = {'programs': len(progs), 'pasted_text_rejected': skipped}
+    finally:
+        shutil.rmtree(base, ignore_errors=True)
+    return out
 
 
 replay = P.replay
